@@ -18,10 +18,11 @@ A == 97
 IntT(i)  == TInt(70 + i, 40 + i)
 StrT(i, b) == TStr(80 + i, b)
 Fxvy == <<120, 37, 118, 121>>                 \* "x%vy"
+Fxpp == <<120, 37, 37>>                       \* "x%%": a format without operands still goes through the directive parser
 
 QOps == { SSafeString(<<A>>), SSafeString(StartM), SSafeString(<<194, 186>>), SUnsafeString(<<A>> \o RuneErrorBytes), SSafeUint(76, -1), SSafeString(<<A>> \o EndM), SUnsafeString(<<A>>), SUnsafeString(<<NL, A>>), SUnsafeString(<<>>),
           SUnsafeString(EndM), SSafeRune(8250), SUnsafeRune(233), SUnsafeRune(NL), SUnsafeByte(226), SSafeInt(71, 41),
-          SPrint(<<StrT(1, <<A, NL>>)>>), SPrint(<<TSafe(90, StrT(2, <<A>>))>>), SPrintf(Fxvy, <<IntT(2)>>), SWrite(<<A>>), SWriteStr(<<NL, A>>), SWriteByte(A), SWriteRune(8250),
+          SPrint(<<StrT(1, <<A, NL>>)>>), SPrint(<<TSafe(90, StrT(2, <<A>>))>>), SPrintf(Fxvy, <<IntT(2)>>), SWrite(<<A>>), SWriteStr(<<NL, A>>), SWriteByte(A), SWriteRune(8250), SUnsafeBytes(<<A, NL, A>>), SPrintf(Fxpp, <<>>),
           \* joining: a slice, a nil operand
           SJoinTo(<<44>>, 160, TSlice(161, <<TStr(162, <<A>>), TInt(163, 46)>>)), SJoinTo(<<44>>, 160, TNil(164)) }
 TOps == QOps \cup { SSafeString(<<NL>>), SSafeBytes(Cross), SUnsafeBytes(<<A, 226>>), SSafeByte(A), SUnsafeString(<<PTok + 5>>),
@@ -82,7 +83,8 @@ DenOp(op, acc) ==
        [] op.o = "Print"      -> DenArgs(op.ts, 1, FALSE, acc)
        [] op.o = "JoinTo"     -> DenJoin(JoinOps(op), acc)
        \* Printf formats of the op sets are literal / %v only: literals are safe text
-       [] op.o = "Printf"     -> IF op.f = Fxvy
+       [] op.o = "Printf"     -> IF op.f = Fxpp THEN << acc[1] \o <<120, 37>>, acc[2] \o <<120, 37>>, acc[3], acc[4] >>
+                                 ELSE IF op.f = Fxvy
                                  THEN LET a == DenArgs(op.ts, 1, TRUE, << acc[1] \o <<120>>, acc[2] \o <<120>>, acc[3], acc[4] >>)
                                       IN << a[1] \o <<121>>, a[2] \o <<121>>, a[3], a[4] >>
                                  ELSE DenArgs(<<op.ts[2]>>, 1, TRUE, DenArgs(<<op.ts[1]>>, 1, TRUE, acc))
